@@ -311,13 +311,28 @@ func Check(run *report.Run, p Prop, nCases int) error {
 			if strings.HasPrefix(a.Tag, "preflight-computed") {
 				pre++
 			}
+			if rq.Change != nil {
+				run.Count("route-table-changed-before-request:" + rq.Change.Kind)
+				if rq.Serve == false && strings.HasPrefix(a.Tag, "preflight-computed") {
+					run.Count("route-table-changed-before-a-computed-preflight")
+					for j := 0; j < i; j++ {
+						if e.C.Reqs[j].R.Path == rq.R.Path && strings.HasPrefix(e.Ans[j].Tag, "preflight-computed") {
+							run.Count("route-table-changed-between-two-computed-preflights-to-one-URL")
+							if strings.Contains(e.Ans[j].Tag, "granted") != strings.Contains(a.Tag, "granted") {
+								run.Count("route-table-changed-between-two-computed-preflights-to-one-URL:verdict-changes")
+							}
+							break
+						}
+					}
+				}
+			}
 			if len(run.Samples) < 5 && strings.HasPrefix(a.Tag, "preflight") && strings.Contains(a.Tag, "granted") && run.Evaluations%5 == 0 {
-				one := Case{Table: e.C.Table, F: e.C.F, Reqs: e.C.Reqs[i : i+1]}
+				one := e.C.Single(i)
 				run.Sample(map[string]interface{}{"input": one.Human([]Obs{o}), "real": p.Real(o), "model": p.Model(a)})
 			}
 			// F14 seen from C09: a preflight granted on COMPUTED methods for a method the router refuses at that URL
 			if p.ID == "C09" && len(e.C.F.Methods) == 0 && len(only(o.Extra, hAM)) > 0 && o.Reached {
-				if st := e.Pair.probeFresh(e.C, rq, first(rq.ACRM)); st == 404 || st == 405 {
+				if st := e.Pair.probeFresh(e.C, i, first(rq.ACRM)); st == 404 || st == 405 {
 					if a.NRoots >= 2 {
 						run.Count("granted-method-not-routed:several-roots-match(F14)")
 						run.KnownHits["F14"]++
@@ -336,7 +351,7 @@ func Check(run *report.Run, p Prop, nCases int) error {
 						switch {
 						case e.C.Table.Router == "jsr" && (condsTrue && len(rq.R.Conds) > 0 || !hasConds):
 							run.Count("granted-method-not-routed:one-root:jsr:UNEXPECTED(C09_routable_partial)")
-							one := Case{Table: e.C.Table, F: e.C.F, Reqs: e.C.Reqs[i : i+1]}
+							one := e.C.Single(i)
 							run.AddViolation(report.Violation{Kind: "correspondence", NoInput: true,
 								What:    fmt.Sprintf("RouterJSR311, one matching root, If-conditions true: the preflight was granted for %s but the router answers %d for it — outside what C09_routable_partial (over the routing model) allows", first(rq.ACRM), st),
 								Theorem: "C09_routable_partial (routing model vs. implementation)", Case: []string{one.Line(0, []Obs{o})}, Human: one.Human([]Obs{o})})
@@ -346,7 +361,7 @@ func Check(run *report.Run, p Prop, nCases int) error {
 							run.Count("granted-method-not-routed:one-root:curly")
 						}
 						if ex, _ := run.Extra["granted_method_not_routed_one_root_examples"].([]interface{}); len(ex) < 3 {
-							one := Case{Table: e.C.Table, F: e.C.F, Reqs: e.C.Reqs[i : i+1]}
+							one := e.C.Single(i)
 							run.Extra["granted_method_not_routed_one_root_examples"] = append(ex, map[string]interface{}{"input": one.Human([]Obs{o}), "probe_status": st})
 						}
 					}
@@ -384,7 +399,7 @@ func CheckPurity(run *report.Run, nCases int) error {
 		}
 		done++
 		for i := 1; i < len(c.Reqs); i++ {
-			one := Case{Table: c.Table, F: c.F, Reqs: c.Reqs[i : i+1]}
+			one := c.Single(i)
 			o1, _, err := Execute(&one)
 			if err != nil {
 				return err
@@ -423,8 +438,18 @@ func CheckPurity(run *report.Run, nCases int) error {
 	return nil
 }
 
-// probeFresh asks a twin whether (method, URL) is routed: 404/405 = not.
-func (p *Pair) probeFresh(c *Case, r Req, method string) int { return p.Probe(r, method) }
+// probeFresh asks a twin whether (method, URL of request i) is routed on the table in force when
+// request i was sent: 404/405 = not. (The pair's own twin holds the FINAL table of the history.)
+func (p *Pair) probeFresh(c *Case, i int, method string) int {
+	if !c.HasChanges() {
+		return p.Probe(c.Reqs[i], method)
+	}
+	tc, tw, _, err := buildOne(c.TableAt(i), nil, false)
+	if err != nil {
+		return 0
+	}
+	return (&Pair{Twin: tc, twinW: tw}).Probe(c.Reqs[i], method)
+}
 
 // still reports whether the (possibly shrunk) case still fails the property in the given way.
 func (p Prop) still(c *Case, kind string) (*Eval, bool) {
@@ -488,6 +513,7 @@ func Vary(r *rng.R, c Case) Case {
 			n.ACRM, n.R.Method = g.ACRM, g.R.Method
 		case 3:
 			n = GenReq(r, o, c.Table, c.F)
+			n.Change = rq.Change
 		case 4:
 			g := GenReq(r, o, c.Table, c.F)
 			n.R.Path = g.R.Path
